@@ -54,8 +54,10 @@ def _load_multiple_spike_arrays(*spike_array_l, spike_order=None):
 
 def _load_multiple_files(fn, subdirs):
     """Load the same filename in the different subdirectories."""
-    # Warning: squeeze may fail in degenerate cases.
-    return [np.load(str(subdir / fn)).squeeze() for subdir in subdirs]
+    # Only squeeze the (n, 1) column vectors saved by Matlab: a blanket squeeze() also removes
+    # meaningful unit dimensions (a probe with a single spike, template or channel).
+    arrs = [np.load(str(subdir / fn)) for subdir in subdirs]
+    return [arr[:, 0] if arr.ndim == 2 and arr.shape[1] == 1 else arr for arr in arrs]
 
 
 #------------------------------------------------------------------------------
